@@ -304,15 +304,20 @@ End Sk.
 (* ---- skip_unknown=False is the plain parse ---- *)
 (* ------------------------------------------------------------------ *)
 Lemma should_skip_dyn_false : forall reg c sel, should_skip_dyn DSkFalse reg c sel = false.
-Proof. intros. unfold should_skip_dyn. destruct (reg_matches reg sel || provides c sel); reflexivity. Qed.
+Proof. intros. unfold should_skip_dyn. destruct (known_dyn reg c sel); reflexivity. Qed.
 Lemma should_skip_dyn_orig_false : forall reg c sel, should_skip_dyn_orig DSkFalse reg c sel = false.
 Proof. intros. unfold should_skip_dyn_orig. destruct (reg_matches reg sel); reflexivity. Qed.
+Lemma should_skip_dyn_orig2_false : forall reg c sel, should_skip_dyn_orig2 DSkFalse reg c sel = false.
+Proof. intros. unfold should_skip_dyn_orig2. destruct (reg_matches reg sel || provides c sel); reflexivity. Qed.
 Theorem run_stmts_sk_false_dyn : forall univ stmts s refs c, class_ids_ok (PMod univ) = true -> table_ok c ->
   run_stmts_sk should_skip_dyn univ DSkFalse stmts s refs c = run_stmts univ stmts s refs c.
 Proof. intros. apply run_stmts_sk_false; [exact should_skip_dyn_false|assumption|assumption]. Qed.
 Theorem run_stmts_sk_false_dyn_orig : forall univ stmts s refs c, class_ids_ok (PMod univ) = true -> table_ok c ->
   run_stmts_sk should_skip_dyn_orig univ DSkFalse stmts s refs c = run_stmts univ stmts s refs c.
 Proof. intros. apply run_stmts_sk_false; [exact should_skip_dyn_orig_false|assumption|assumption]. Qed.
+Theorem run_stmts_sk_false_dyn_orig2 : forall univ stmts s refs c, class_ids_ok (PMod univ) = true -> table_ok c ->
+  run_stmts_sk should_skip_dyn_orig2 univ DSkFalse stmts s refs c = run_stmts univ stmts s refs c.
+Proof. intros. apply run_stmts_sk_false; [exact should_skip_dyn_orig2_false|assumption|assumption]. Qed.
 Lemma table_ok_empty : table_ok empty_ctx.
 Proof. intros n root d H. cbn in H. discriminate. Qed.
 Theorem parse_call_sk_false : forall univ stmts sr, class_ids_ok (PMod univ) = true ->
@@ -504,17 +509,46 @@ Qed.
 (* ------------------------------------------------------------------ *)
 (* ---- the skip clause ---- *)
 (* ------------------------------------------------------------------ *)
-(* known: registered, or provided by the file's own imports *)
-Definition known_dyn (reg : list centry) (c : dctx) (sel : string) : bool := reg_matches reg sel || provides c sel.
+(* known (Model/DynReg.v known_dyn): under dynamic registration, provided by the file's own imports -- and nothing else;
+   without it, matched by the registry *)
+Lemma provides_dynamic : forall c sel, provides c sel = true -> c_dynamic c = true.
+Proof. intros c sel H. unfold provides in H. apply andb_true_iff in H. exact (proj1 H). Qed.
+Theorem C15_dyn_known_is_provided : forall reg c sel, c_dynamic c = true -> known_dyn reg c sel = provides c sel.
+Proof. intros reg c sel Hd. unfold known_dyn. rewrite Hd. reflexivity. Qed.
+Theorem C15_static_known_is_registered : forall reg c sel, c_dynamic c = false -> known_dyn reg c sel = reg_matches reg sel.
+Proof. intros reg c sel Hd. unfold known_dyn. rewrite Hd. reflexivity. Qed.
 Theorem C15_dyn_provided_never_skipped : forall c sel, provides c sel = true ->
   forall sk reg, should_skip_dyn sk reg c sel = false.
-Proof. intros c sel H sk reg. unfold should_skip_dyn. rewrite H, orb_true_r. reflexivity. Qed.
-Theorem C15_dyn_registered_never_skipped : forall reg sel, reg_matches reg sel = true ->
-  forall sk c, should_skip_dyn sk reg c sel = false.
-Proof. intros reg sel H sk c. unfold should_skip_dyn. rewrite H. reflexivity. Qed.
+Proof.
+  intros c sel H sk reg. unfold should_skip_dyn. rewrite (C15_dyn_known_is_provided reg c sel (provides_dynamic c sel H)), H. reflexivity.
+Qed.
+(* without dynamic registration a registered name is never skipped ... *)
+Theorem C15_dyn_registered_never_skipped : forall reg sel c, c_dynamic c = false -> reg_matches reg sel = true ->
+  forall sk, should_skip_dyn sk reg c sel = false.
+Proof. intros reg sel c Hd H sk. unfold should_skip_dyn. rewrite (C15_static_known_is_registered reg c sel Hd), H. reflexivity. Qed.
+(* ... under dynamic registration a name the file's own imports do not provide IS skipped when covered, whatever the
+   registry holds (what something else registered under that spelling does not make it known here) *)
+Theorem C15_dyn_unprovided_skip_decision : forall c sel, c_dynamic c = true -> provides c sel = false ->
+  forall sk reg, should_skip_dyn sk reg c sel = dsk_covers sk sel.
+Proof. intros c sel Hd H sk reg. unfold should_skip_dyn. rewrite (C15_dyn_known_is_provided reg c sel Hd), H. reflexivity. Qed.
+Theorem C15_dyn_registered_unprovided_skipped : forall reg c sel sk, c_dynamic c = true -> reg_matches reg sel = true ->
+  provides c sel = false -> dsk_covers sk sel = true -> should_skip_dyn sk reg c sel = true.
+Proof. intros reg c sel sk Hd _ Hp Hc. rewrite (C15_dyn_unprovided_skip_decision c sel Hd Hp sk reg). exact Hc. Qed.
+(* "known" means resolvable through the file's imports, independent of what was parsed before: for a dynamic context the
+   skip decision does not depend on the registry at all *)
+Theorem C15_dyn_known_independent_of_registry : forall sk reg1 reg2 c sel, c_dynamic c = true ->
+  should_skip_dyn sk reg1 c sel = should_skip_dyn sk reg2 c sel.
+Proof.
+  intros sk reg1 reg2 c sel Hd. unfold should_skip_dyn.
+  rewrite (C15_dyn_known_is_provided reg1 c sel Hd), (C15_dyn_known_is_provided reg2 c sel Hd). reflexivity.
+Qed.
+(* the decision in full: not known and covered *)
+Theorem C15_dyn_skip_decision_full : forall sk reg c sel,
+  should_skip_dyn sk reg c sel = negb (if c_dynamic c then provides c sel else reg_matches reg sel) && dsk_covers sk sel.
+Proof. intros sk reg c sel. unfold should_skip_dyn, known_dyn. destruct (c_dynamic c); [destruct (provides c sel)|destruct (reg_matches reg sel)]; reflexivity. Qed.
 Theorem C15_dyn_skip_decision : forall sk reg c sel, reg_matches reg sel = false -> provides c sel = false ->
   should_skip_dyn sk reg c sel = dsk_covers sk sel.
-Proof. intros sk reg c sel H1 H2. unfold should_skip_dyn. rewrite H1, H2. reflexivity. Qed.
+Proof. intros sk reg c sel H1 H2. rewrite C15_dyn_skip_decision_full, H1, H2. destruct (c_dynamic c); reflexivity. Qed.
 Theorem C15_dyn_skipped_block_dropped : forall skipf univ sk scope sel rest s refs c, skipf sk (ds_reg s) c sel = true ->
   run_stmts_sk skipf univ sk (DBlock scope sel :: rest) s refs c = run_stmts_sk skipf univ sk rest s refs c.
 Proof. intros. rewrite run_stmts_sk_block, H. reflexivity. Qed.
@@ -593,7 +627,7 @@ Theorem C15_dyn_known_targets_skip_irrelevant : forall univ sk stmts s refs c, c
 Proof.
   intros univ sk stmts s refs c Hu Htab H. apply run_stmts_sk_noskip; [exact Hu|exact Htab|].
   eapply never_skips_mono; [|exact H]. intros reg c0 sel H0. cbn beta in H0. apply negb_false_iff in H0.
-  unfold should_skip_dyn. unfold known_dyn in H0. rewrite H0. reflexivity.
+  unfold should_skip_dyn. rewrite H0. reflexivity.
 Qed.
 
 (* ---- the code before the repair dropped a binding whose target the file's own imports provide ---- *)
@@ -626,6 +660,43 @@ Module DynSkipExample.
   Proof. vm_compute. split; reflexivity. Qed.
 End DynSkipExample.
 
+(* ---- the code between the two repairs: under dynamic registration a name the file's imports do NOT provide counted as
+   known when something else (another file, a decorator) had registered that spelling: the statement was not skipped and
+   then raised NameError; "known" depended on what was parsed before ---- *)
+Module DynSkipExample2.
+  Import DynSkipExample.
+  Definition univ2 : list (string * pyobj) := [("dmod", PMod [("fn", PFunc 1)]); ("other", PMod [("g", PFunc 2)])].
+  (* "other.g" was registered by something else (a decorator, or another file's import other) *)
+  Definition other_g : centry := {| ce_sel := "other.g"; ce_obj := 2; ce_method := false; ce_src := None; ce_home := ("other", "g") |}.
+  Definition s_reg : dstate := {| ds_reg := [other_g]; ds_store := []; ds_imports := []; ds_dynamic_seen := false |}.
+  (* this file imports dmod only: other.g does not resolve through its imports *)
+  Definition stmts2 : list dstmt :=
+    [DImport feat; DImport {| d_module := "dmod"; d_from := false; d_alias := None |};
+     DBind "" "other.g" "x" (DVal 7); DBind "" "dmod.fn" "x" (DVal 1)].
+  Definition ctx2 : dctx := let '(_, _, c, _) := run_stmts_sk should_skip_dyn univ2 DSkTrue stmts2 s_reg [] empty_ctx in c.
+  Eval vm_compute in (summary (run_stmts_sk should_skip_dyn_orig2 univ2 DSkTrue stmts2 s_reg [] empty_ctx),
+                      summary (run_stmts_sk should_skip_dyn univ2 DSkTrue stmts2 s_reg [] empty_ctx),
+                      summary (run_stmts_sk should_skip_dyn_orig2 univ2 DSkTrue stmts2 s0 [] empty_ctx)).
+  Theorem C15_dyn_orig_registered_spelling_not_skipped :
+    (* the name is not provided by the file's imports, something else registered it, skip_unknown covers it *)
+    c_dynamic ctx2 = true /\ provides ctx2 "other.g" = false /\ reg_matches (ds_reg s_reg) "other.g" = true /\
+    dsk_covers DSkTrue "other.g" = true /\
+    (* code before the repair: not skipped, NameError (nothing of the file's remainder is applied) *)
+    should_skip_dyn_orig2 DSkTrue (ds_reg s_reg) ctx2 "other.g" = false /\
+    summary (run_stmts_sk should_skip_dyn_orig2 univ2 DSkTrue stmts2 s_reg [] empty_ctx) = (["other.g"], [], Some "NameError") /\
+    (* ... while the same text, parsed when nothing had registered that spelling, was accepted (the binding dropped):
+       the outcome depended on what was parsed before *)
+    summary (run_stmts_sk should_skip_dyn_orig2 univ2 DSkTrue stmts2 s0 [] empty_ctx)
+      = (["dmod.fn"], [(("", "dmod.fn"), [("x", 1%Z)])], None) /\
+    (* repaired code: the binding is dropped, whatever the registry holds, and the remainder is applied *)
+    should_skip_dyn DSkTrue (ds_reg s_reg) ctx2 "other.g" = true /\
+    summary (run_stmts_sk should_skip_dyn univ2 DSkTrue stmts2 s_reg [] empty_ctx)
+      = (["other.g"; "dmod.fn"], [(("", "dmod.fn"), [("x", 1%Z)])], None) /\
+    summary (run_stmts_sk should_skip_dyn univ2 DSkTrue stmts2 s0 [] empty_ctx)
+      = (["dmod.fn"], [(("", "dmod.fn"), [("x", 1%Z)])], None).
+  Proof. vm_compute. repeat split; reflexivity. Qed.
+End DynSkipExample2.
+
 Print Assumptions run_stmts_cons.
 Print Assumptions get_configurable_idempotent.
 Print Assumptions reference_two_phase.
@@ -633,6 +704,7 @@ Print Assumptions run_stmts_sk_noskip.
 Print Assumptions run_stmts_sk_false.
 Print Assumptions run_stmts_sk_false_dyn.
 Print Assumptions run_stmts_sk_false_dyn_orig.
+Print Assumptions run_stmts_sk_false_dyn_orig2.
 Print Assumptions parse_call_sk_false.
 Print Assumptions run_stmts_sk_ind.
 Print Assumptions run_stmts_sk_reg_wf.
@@ -643,6 +715,12 @@ Print Assumptions C19_isolation_sk.
 Print Assumptions C15_dyn_provided_never_skipped.
 Print Assumptions C15_dyn_registered_never_skipped.
 Print Assumptions C15_dyn_skip_decision.
+Print Assumptions C15_dyn_skip_decision_full.
+Print Assumptions C15_dyn_known_is_provided.
+Print Assumptions C15_static_known_is_registered.
+Print Assumptions C15_dyn_unprovided_skip_decision.
+Print Assumptions C15_dyn_registered_unprovided_skipped.
+Print Assumptions C15_dyn_known_independent_of_registry.
 Print Assumptions C15_dyn_skipped_block_dropped.
 Print Assumptions C15_dyn_skipped_binding_dropped.
 Print Assumptions C15_dyn_skipped_ref_binding_dropped.
@@ -654,3 +732,4 @@ Print Assumptions C15_dyn_missing_import_dropped.
 Print Assumptions C15_dyn_known_targets_skip_irrelevant.
 Print Assumptions DynSkipExample.C15_dyn_orig_drops_provided_binding.
 Print Assumptions DynSkipExample.C15_dyn_placeholder_example.
+Print Assumptions DynSkipExample2.C15_dyn_orig_registered_spelling_not_skipped.
